@@ -49,57 +49,75 @@ Definition ret_val (r : resp) : val + err :=
   match r with ROk v => inl v | RErr e => inr e | RAct a => inl (VAct a) end.
 Definition ret_act (r : resp) : act + err :=
   match r with RAct a => inl a | RErr e => inr e | ROk _ => inl A_EMPTY end.
+Definition map_inl {A B E} (f : A -> B) (x : A + E) : B + E :=
+  match x with inl a => inl (f a) | inr e => inr e end.
 
-(* node.Prep(ctx, shared) *)
-Definition node_prep (c : ucfg) (n : nid) (s : ms) : ms * (val + err) :=
-  match u_prep c with
-  | FAbsent => (s, inl VNil)                          (* BaseNode.Prep *)
-  | FDirect | FBatch =>
-      let '(s', r) := emit o s (CPrep n VStore) in (s', ret_val r)
-  | FRes =>                                           (* CustomNode.Prep: result.Value() *)
-      let '(s', r) := emit o s (CPrep n VStore) in
-      (s', match r with ROk v => inl (value_of (as_res v)) | _ => ret_val r end)
-  | FAny =>                                           (* adapter: NewResult(val), then .Value() *)
-      let '(s', r) := emit o s (CPrep n VStore) in
-      (s', match r with ROk v => inl (value_of (new_result v)) | _ => ret_val r end)
-  end.
-
-(* node.Exec(ctx, arg) *)
-Definition node_exec (c : ucfg) (n : nid) (s : ms) (arg : val) : ms * (val + err) :=
-  match u_exec c with
-  | FAbsent | FBatch => (s, inl VNil)                 (* BaseNode.Exec *)
-  | FDirect => let '(s', r) := emit o s (CExec n arg) in (s', ret_val r)
-  | FRes =>                                           (* CustomNode.Exec, flyt.go:1130-1148 *)
-      let '(s', r) := emit o s (CExec n (as_res arg)) in
-      (s', match r with
-           | ROk v => let res := as_res v in
-                      if res_is_error res then inl res else inl (value_of res)
-           | _ => ret_val r
-           end)
-  | FAny =>                                           (* adapter: fn(ctx, prepResult.Value()) *)
-      let '(s', r) := emit o s (CExec n (value_of (as_res arg))) in
-      (s', match r with
-           | ROk v => inl (value_of (new_result v))
-           | _ => ret_val r
-           end)
-  end.
+(* does the phase reach a user function at all? *)
+Definition has_prep (c : ucfg) : bool := match u_prep c with FAbsent => false | _ => true end.
+Definition has_exec (c : ucfg) : bool :=
+  match u_exec c with FAbsent | FBatch => false | _ => true end.
+Definition has_post (c : ucfg) : bool :=
+  match u_post c with FAbsent | FBatch => false | _ => true end.
 
 (* the exec Result handed to a CustomNode post function (flyt.go CustomNode.Post) *)
 Definition post_exec_view (x : val) : val :=
   if is_res x && res_is_error x then x else new_result x.
 
+(* what the node returns to Run for a value v returned by the user's prep function *)
+Definition prep_ret (st : fstyle) (v : val) : val :=
+  match st with
+  | FRes => value_of (as_res v)          (* CustomNode.Prep: result.Value() *)
+  | FAny => value_of (new_result v)      (* adapter: NewResult(val), then .Value() *)
+  | _ => v
+  end.
+(* what the user's exec function receives for the argument Run passes to node.Exec *)
+Definition exec_arg (st : fstyle) (arg : val) : val :=
+  match st with
+  | FRes => as_res arg                   (* flyt.go:1134-1138 *)
+  | FAny => value_of (as_res arg)        (* adapter: fn(ctx, prepResult.Value()) *)
+  | _ => arg
+  end.
+(* what node.Exec returns for a value v returned by the user's exec function *)
+Definition exec_ret (st : fstyle) (v : val) : val :=
+  match st with
+  | FRes => let res := as_res v in       (* flyt.go:1142-1145 *)
+            if res_is_error res then res else value_of res
+  | FAny => value_of (new_result v)
+  | _ => v
+  end.
+(* what the user's post function receives *)
+Definition post_p (st : fstyle) (p : val) : val :=
+  match st with
+  | FRes => new_result p
+  | FAny => value_of (new_result p)
+  | _ => p
+  end.
+Definition post_x (st : fstyle) (x : val) : val :=
+  match st with
+  | FRes => post_exec_view x
+  | FAny => value_of (post_exec_view x)
+  | _ => x
+  end.
+
+(* node.Prep(ctx, shared) *)
+Definition node_prep (c : ucfg) (n : nid) (s : ms) : ms * (val + err) :=
+  if has_prep c then
+    let '(s', r) := emit o s (CPrep n VStore) in (s', map_inl (prep_ret (u_prep c)) (ret_val r))
+  else (s, inl VNil).                                  (* BaseNode.Prep *)
+
+(* node.Exec(ctx, arg) *)
+Definition node_exec (c : ucfg) (n : nid) (s : ms) (arg : val) : ms * (val + err) :=
+  if has_exec c then
+    let '(s', r) := emit o s (CExec n (exec_arg (u_exec c) arg)) in
+    (s', map_inl (exec_ret (u_exec c)) (ret_val r))
+  else (s, inl VNil).                                  (* BaseNode.Exec *)
+
 (* node.Post(ctx, shared, p, x) *)
 Definition node_post (c : ucfg) (n : nid) (s : ms) (p x : val) : ms * (act + err) :=
-  match u_post c with
-  | FAbsent | FBatch => (s, inl A_DEFAULT)            (* BaseNode.Post *)
-  | FDirect => let '(s', r) := emit o s (CPost n VStore p x) in (s', ret_act r)
-  | FRes =>
-      let '(s', r) := emit o s (CPost n VStore (new_result p) (post_exec_view x)) in (s', ret_act r)
-  | FAny =>
-      let '(s', r) :=
-        emit o s (CPost n VStore (value_of (new_result p)) (value_of (post_exec_view x))) in
-      (s', ret_act r)
-  end.
+  if has_post c then
+    let '(s', r) := emit o s (CPost n VStore (post_p (u_post c) p) (post_x (u_post c) x)) in
+    (s', ret_act r)
+  else (s, inl A_DEFAULT).                             (* BaseNode.Post *)
 
 (* fallback.ExecFallback(p, e) for a node that is a FallbackNode *)
 Definition node_fallback (c : ucfg) (n : nid) (s : ms) (p : val) (e : err) : ms * (val + err) :=
